@@ -64,6 +64,18 @@ CHECKS = {
             'C02_direct_* / C02_kinds_agree: on the programs regenerated from /repo an undisturbed run of a target that returns / raises an Exception is observed by the parent exactly as the direct call\'s outcome, for thread, process and remote kinds, hence the kinds agree; C02_notrun and C02_create_table cover the never-run rule and Worker.create. The size clause is modelled by a capacity protocol: C02_delivered_thread_remote for every size, C02_process_counterexample / C02_process_partial for the process kind (known finding). Every run executes a menu of module-level targets (positional/keyword/varargs, None and falsy values, nested containers, custom class, byte strings of 0 B..1 MB (4 MB thorough) around the measured pipe capacity, four exception classes) directly and in the three kinds through the constructor and Worker.create, plus run=None/True/False and target None.',
             'Values are abstract in the Lean model (pickling is CPython). Known finding: ProcessWorker result larger than the pipe buffer deadlocks wait(). Main-script-defined classes not exercised.',
             '§7 C02'),
+    'C11': ('Lean 4 proof (induction over client sessions) over the accept loop\'s exception policy REGENERATED from /repo (T-srv) + recorded client streams cut at byte offsets against a real server',
+            'Gen.serverLoop lists every client-facing step of RemoteServer.run with what the enclosing try blocks do with a ConnectionClosedError; C11_policy: each is caught and the loop continues; C11_survives / C11_survives_generated / C11_serves_after: for every sequence of sessions, each vanishing at any step, the server is still accepting and serves the next client. Every run records the byte streams of the five request kinds from the real client code, cuts them at byte offsets (every 7th + all message boundaries; all in thorough) with FIN and RST, fails the control handshake at each step, also against a server whose first client is the faulty one, and after every 1-3 faulty clients checks server liveness, a fresh round trip and the healthy client\'s plain and in-context workers.',
+            'Partial: what happens inside a step (the pickled worker\'s server-side __setstate__, the context helper process) is covered by the real-server runs, not by the theorem. Kernel timing of FIN/RST trusted.',
+            '§7 C11'),
+    'C17': ('Lean 4 proof (restart state machine, induction over later enqueues and over restart chains) + restart-argument table REGENERATED from /repo (T-tab) + real restarts from eight states',
+            'C17_fresh / C17_no_old_results / C17_raises_if_stuck / C17_ok_otherwise / C17_chain: from any state a restart that does not raise gives a live open worker with the same constructor data, a new identity, counter 0 and an empty stream whose later results all belong to the new incarnation; it raises, changing nothing, exactly when the old child cannot be stopped; C17_restart_args checks the regenerated list of constructor arguments restart carries over. Every run restarts real thread/process/remote persistent workers from {never used, results unread, inputs queued, closed, died by exception, SIGKILLed, uncooperative target, killed while sending its final message} 1-3 times with own and caller-supplied pipes and with the old frontend thread still receiving.',
+            'The restart machine is hand-written (tied by the real runs); pid freshness is an OS fact.',
+            '§7 C17'),
+    'C20': ('Lean 4 proof over the client-side handshake structure REGENERATED from /repo (T-front) + scripted fake server cutting every server-to-client byte + real-server faults',
+            'Gen.frontend lists the handshake steps of RemoteWorker._run_frontend, whether each is inside the try, what the handler catches, whether it records the error and sets the start-up event and whether _start re-raises. C20_never_hangs: every step x every failure it can produce ends in the constructor raising; C20_general: the same for any handshake of any length under the generated handler properties; C20_server_answers_or_closes ties in the server side. Every run plays the server side with a scripted peer (control-address and runtime-info messages cut at byte offsets with FIN/RST, refused control connection, undecodable info), uses a real server for unknown context ids, a server SIGKILLed during construction and a backend child that dies before reporting, and kills a ProcessWorker child at line events before it reports.',
+            'A peer that stays connected and silent for ever is outside the property. Model of the constructor is structural (no timing).',
+            '§7 C20'),
 }
 NOT_YET = 'check not built yet in this session (work in progress; see DESIGN.md §13 for the order)'
 
